@@ -646,7 +646,7 @@ impl<Front: SocketHandler> ConnectionH1<Front> {
                             }
                             return MuxResult::Continue;
                         }
-                        kawa::StatusLine::Response { code: 103, .. } => {
+                        kawa::StatusLine::Response { code: 102..=199, .. } => {
                             debug!("{} ============== HANDLE EARLY HINT!", log_context!(self));
                             // Do NOT call generate_access_log for 103 Early Hints.
                             // The final response will emit the access log.
